@@ -20,6 +20,14 @@ subsequence of the input tokens (order kept, one input line per output line, not
 result without a non-blank line is [] / raises ContentException and leaves no data file and no
 results entry / the cleaned file is removed.
 
+Part D (histories of fresh cleaners in one process).  Every ordered pair over an alphabet of steps (cleaner configuration x
+content, two contents per obfuscator kind that number the same tokens in different order) and every triple over a reduced
+alphabet (thorough: the whole one): each step on a FRESH Cleaner, all in one fork of a pristine child interpreter.  Oracle:
+every step's output equals the output of that step when its cleaner is the first one of a pristine interpreter.
+
+Part E (long contents).  Contents of 2**k - 1, 2**k, 2**k + 1 numbered lines up to 2**15 + 1 (thorough 2**16 + 1, 100001)
+through clean_content (3 configurations), clean_file and provider.write: the order / derivation / emptiness oracle of part B.
+
 "blank" is what the code calls blank: the empty string.  A whitespace-only line (" ", or "\\n" as
 read by clean_file) is non-blank for the code and is treated so here (weaker reading).
 """
@@ -42,7 +50,11 @@ RULE = ("part A: every case of a fixed catalogue of competing-obfuscator content
         "through the name `set` inside the obfuscator modules (schedule-driven stand-in, stateless DFS over the choice "
         "points); an execution is non-trivial when >= 2 obfuscators changed the same line. "
         "part B: every content of <= L lines over 6 line kinds x every listed configuration x 3 entry points; "
-        "a case is non-trivial when cleaning dropped or rewrote at least one line")
+        "a case is non-trivial when cleaning dropped or rewrote at least one line. "
+        "part D: every ordered pair of steps (cleaner configuration x content x call) and every triple over the reduced step "
+        "alphabet, each step on a fresh Cleaner, the whole history in one fork of a pristine child interpreter; non-trivial "
+        "when the last step and an earlier step both rewrote their content. "
+        "part E: every listed line count (2**k - 1, 2**k, 2**k + 1) x configuration x entry point, numbered lines")
 ASSUMPTIONS = ["CPython iterates a small set by slot index, so n keys with forced hashes 0..n-1 iterate in hash order; "
                "checked per execution against set(keys) itself and against the logged call order",
                "set order inside an obfuscator is owned only for sets built by calling the name `set` in insights.cleaner."
@@ -54,13 +66,27 @@ ASSUMPTIONS = ["CPython iterates a small set by slot index, so n keys with force
                "part A contents are a hand-made catalogue (one or more per pair of obfuscators) plus, in the thorough "
                "tier, every length-3 substring of each sensitive token as keyword; not all contents",
                "blank means the empty string, as in the code; whitespace-only lines count as non-blank",
+               "part D: a child interpreter that has imported insights.cleaner and built no Cleaner is the pristine process; "
+               "fork() gives every history its own copy of it; the histories are sequences of clean_content calls on fresh "
+               "Cleaner objects (other entry points share the obfuscator objects)",
+               "part E: long contents are one fixed periodic mix of line kinds (and one all-dropped shape) per line count, not "
+               "all contents of that length",
                "bounded: no counterexample within the stated bounds, nothing more"]
 BOUNDS = {"quick": {"orders_per_case": "all n! (n <= 6); generated adjacent pairs: all orders of the <= 4 obfuscators involved", "hash_seeds": 16, "generated_cases": "substrings + 9x9 kinds x 4 glues + same-text + substitutes",
                     "inside_set_orders": "all n! per set built via set() in the obfuscator modules (n <= 5)", "max_lines": 4, "line_kinds": 6, "clean_content_configs": 60, "clean_file_configs": 5,
-                    "provider_configs": 3, "spec_declarations": "2 no_redact x 3 no_obfuscate x 7 spec kinds, contents <= 2 lines"},
+                    "provider_configs": 3, "spec_declarations": "2 no_redact x 3 no_obfuscate x 7 spec kinds, contents <= 2 lines",
+                    "fresh_cleaner_histories": "all ordered pairs over 36 steps (16 contents = 2 per obfuscator kind / redaction / mixed on one cleaner configuration, the "
+                                               "8 configuration-sensitive ones on 2 more configurations, 4 call variants) "
+                                               "+ all triples over 6 steps, one process per history",
+                    "long_contents": "line counts 1023..32769 (2**k - 1, 2**k, 2**k + 1 for k = 10, 12, 14; 2**15, 2**15 + 1) x 3 "
+                                     "clean_content configurations; all-dropped shape, clean_file, datasource and file provider "
+                                     "write at 16385 and 32769"},
           "thorough": {"orders_per_case": "all n! (n <= 6)", "hash_seeds": 64, "generated_cases": "substrings + 9x9 kinds x 7 glues + same-text + substitutes",
                        "inside_set_orders": "all n! per set built via set() in the obfuscator modules (n <= 5)", "max_lines": 5, "line_kinds": 6, "clean_content_configs": 60, "clean_file_configs": 5,
-                       "provider_configs": 4, "spec_declarations": "2 no_redact x 3 no_obfuscate x 7 spec kinds, contents <= 3 lines"}}
+                       "provider_configs": 4, "spec_declarations": "2 no_redact x 3 no_obfuscate x 7 spec kinds, contents <= 3 lines",
+                       "fresh_cleaner_histories": "all ordered pairs and all triples over 36 steps, one process per history",
+                       "long_contents": "line counts 1023..65537 (2**k - 1, 2**k, 2**k + 1 for k = 10, 12..16) and 100001 x 3 "
+                                        "clean_content configurations; other shapes / entry points at 16385, 32769, 65537"}}
 CAP_S = {"quick": 300, "thorough": 2400}
 
 CLAUSE_DET = "determinism:one-output-over-iteration-orders"
@@ -949,6 +975,267 @@ def run_c(unit, tier, res):
 
 
 # ================================================================================================
+# Part D - several FRESH cleaners in one process: a fresh cleaner's output is independent of the earlier ones
+# ================================================================================================
+# "Cleaning the same content with the same configuration in a fresh cleaner always produces the same output": the output of a
+# step (configuration, content) on a fresh Cleaner is compared between (a) a pristine interpreter in which that cleaner is the
+# first one ever built and (b) the same pristine interpreter after one / two OTHER fresh cleaners have cleaned other contents
+# (what the client does: the collection has its Cleaner, the check-in builds another one in the same process).  State that
+# outlives a Cleaner object (class attributes, module tables, caches, shared default arguments) is visible only this way.
+# The HISTORY is the case: the descriptor lists all steps; it is executed in a fork of a pristine child interpreter.
+
+CLAUSE_HIST = "determinism:fresh-cleaner-independent-of-earlier-cleaners"
+D_CLEANERS = {
+    "corp-web01": {"keywords": ["KWA", "KWB"], "patterns": ["REDACTME"], "fqdn": "web01.corp.test"},
+    "corp-db": {"keywords": ["KWB", "KWC"], "patterns": ["REDACTME"], "fqdn": "db.corp.test"},       # a name the others mention
+    "lab-web01": {"keywords": ["KWC"], "patterns": {"regex": ["REDACT[A-Z]+"]}, "fqdn": "web01.lab.test"},
+}
+# per obfuscator kind: contents that mention overlapping tokens in DIFFERENT first-seen order (so the numbering differs)
+D_CONTENTS = {
+    "hostname-1": ["db.corp.test is the database", "web.corp.test is the front end", "db.lab.test"],
+    "hostname-2": ["proxy: web.corp.test -> cache.corp.test", "", "web01 done web.lab.test cache.lab.test"],
+    "ip-1": ["addr 10.1.1.1 peer 10.1.1.2"],
+    "ip-2": ["addr 10.1.1.2 peer 10.1.1.3", "then 10.1.1.1"],
+    "ipv6-1": ["inet6 fe80::1 2001:db8::1 scope"],
+    "ipv6-2": ["inet6 2001:db8::1 fe80::2 fe80::1"],
+    "mac-1": ["ether aa:bb:cc:dd:ee:ff 11:22:33:44:55:66"],
+    "mac-2": ["ether 11:22:33:44:55:66 AA-BB-CC-DD-EE-01 aa:bb:cc:dd:ee:ff"],
+    "keyword-1": ["x KWA y KWB z KWC"],
+    "keyword-2": ["KWC KWB KWA again KWC"],
+    "password-1": ["password=abc123 password: xyz"],
+    "password-2": ["secret password xyz789 rest", "password=abc123"],
+    "redact-1": ["ALLOW keep a", "REDACTME ALLOW b", "ALLOW c", "other line"],
+    "redact-2": ["other line", "ALLOW c", "", "REDACTME"],
+    "mixed-1": ["host web.corp.test addr 10.1.1.2 ether 11:22:33:44:55:66 inet6 fe80::2 password=abc123 KWB web01"],
+    "mixed-2": ["KWA db.corp.test cache.corp.test 10.1.1.9 10.1.1.2 fe80::1 aa:bb:cc:dd:ee:ff password=zzz"],
+}
+D_CALLS = {"plain": {}, "allow-1": {"allow": {"ALLOW": 1}}, "exempt": {"no_obf": ["hostname", "ip"], "no_redact": True}}
+D_REDUCED = [("corp-web01", "hostname-1", "plain"), ("corp-web01", "hostname-2", "plain"), ("corp-db", "hostname-2", "plain"),
+             ("corp-web01", "ip-2", "plain"), ("corp-web01", "mixed-1", "plain"), ("corp-web01", "mixed-2", "exempt")]
+
+
+def d_alphabet():
+    """Every content on the first cleaner configuration; the contents of the kinds the configuration matters for (system
+    host name / domain, keyword list, pattern list) and the mixed ones on the other two configurations too; plus the allow-list
+    call for the redact contents and the exempting call for the mixed contents (on the first configuration)."""
+    al = [("corp-web01", co, "plain") for co in sorted(D_CONTENTS)]
+    al += [(cl, co, "plain") for cl in ("corp-db", "lab-web01") for co in sorted(D_CONTENTS)
+           if co.split("-")[0] in ("hostname", "keyword", "redact", "mixed")]
+    al += [("corp-web01", co, "allow-1") for co in ("redact-1", "redact-2")]
+    al += [("corp-web01", co, "exempt") for co in ("mixed-1", "mixed-2")]
+    return al
+
+
+def d_step(sym):
+    cl, co, call = sym
+    st = {"cleaner": dict(D_CLEANERS[cl]), "lines": list(D_CONTENTS[co]), "label": "%s/%s/%s" % (cl, co, call)}
+    st.update(D_CALLS[call])
+    return st
+
+
+def d_histories(tier):
+    """All ordered pairs over the whole step alphabet (a step may follow itself) + all triples over the reduced alphabet
+    (quick) / over the whole alphabet (thorough)."""
+    al = d_alphabet()
+    hs = [[a, b] for a in al for b in al]
+    tri = al if tier == "thorough" else D_REDUCED
+    hs += [[a, b, c] for a in tri for b in tri for c in tri]
+    return hs
+
+
+def judge_history(steps, outs, alone):
+    """steps: the step dicts; outs: output per step in the history; alone: output of each step as the only cleaner of a
+    pristine interpreter.  One violation for the first step whose output differs."""
+    for i, st in enumerate(steps):
+        if outs[i] != alone[i]:
+            obs = {"step": i, "step_label": st.get("label"), "output_after_earlier_cleaners": outs[i],
+                   "earlier_steps": [s.get("label") for s in steps[:i]],
+                   "where": "state that outlives a Cleaner object (class attribute / module table / cache) in insights/cleaner/"}
+            feats = {"clause_family": "process-history", "steps": len(steps), "first_differing_step": i}
+            return [(CLAUSE_HIST, {"output_of_the_same_step_in_a_fresh_cleaner_that_is_the_first_one_of_its_interpreter": alone[i]},
+                     obs, feats)]
+    return []
+
+
+def check_d(desc):
+    """Replay / single-case form: the history and each of its steps alone, all in forks of one pristine child interpreter."""
+    steps = desc["steps"]
+    res = lib.run_histories([steps] + [[s] for s in steps])
+    return judge_history(steps, res[0], [r[0] for r in res[1:]])
+
+
+def run_d(unit, tier, res):
+    al = d_alphabet()
+    steps_of = dict((sym, d_step(sym)) for sym in al)
+    if len(set(json.dumps([s["cleaner"], s["lines"], s.get("allow"), s.get("no_obf")], sort_keys=True)
+               for s in steps_of.values())) != len(al):
+        raise RuntimeError("part D alphabet has two identical steps")        # vacuity guard (LESSONS 10)
+    hs = list(enumx.shard(d_histories(tier), unit["shard"], unit["of"]))
+    got = lib.run_histories([[steps_of[s]] for s in al] + [[steps_of[s] for s in h] for h in hs])
+    alone = dict((sym, got[i][0]) for i, sym in enumerate(al))
+    rewrites = dict((sym, alone[sym] != steps_of[sym]["lines"]) for sym in al)
+    res.maxi("D_alphabet_steps", len(al))
+    for h, outs in zip(hs, got[len(al):]):
+        steps = [steps_of[s] for s in h]
+        res.case(nontrivial=rewrites[h[-1]] and any(rewrites[s] for s in h[:-1]),
+                 outcome="D:%d-steps:%s" % (len(h), "same" if all(o == alone[s] for s, o in zip(h, outs)) else "differs"),
+                 sample={"part": "D", "steps": steps} if len(h) == 3 and len(res.samples) < 1 else None)
+        res.stat("D_histories")
+        res.stat("D_histories_of_%d_cleaners" % len(h))
+        res.traces += 1
+        res.transitions += len(h)
+        res.maxi("D_max_cleaners_in_one_process", len(h))
+        for clause, exp, obs, feats in judge_history(steps, outs, [alone[s] for s in h]):
+            res.violation(clause, {"part": "D", "steps": steps}, exp, obs, feats)
+
+
+# ================================================================================================
+# Part E - LONG contents (no internal block / buffer size may show): order, derivation, emptiness
+# ================================================================================================
+# Line counts just below / at / above powers of two up to 2**15 + 1; numbered (tagged) lines; the same oracle as part B,
+# with compact evidence.  The sizes are not derived from any constant of the code: whatever chunking an implementation
+# uses, a content longer than the chunk crosses a boundary.
+
+LONG_SIZES = {"quick": [1023, 1024, 1025, 4095, 4096, 4097, 16383, 16384, 16385, 32768, 32769],
+              "thorough": [1023, 1024, 1025, 4095, 4096, 4097, 8191, 8192, 8193, 16383, 16384, 16385, 32767, 32768, 32769,
+                           65535, 65536, 65537, 100001]}
+LONG_CC = [{"patterns": "plain", "allow": None, "no_redact": False, "obfuscate": True},
+           {"patterns": "regex", "allow": {"ALLOW": 1000000}, "no_redact": False, "obfuscate": False},
+           {"patterns": "none", "allow": {"ALLOW": 5000}, "no_redact": True, "obfuscate": True}]
+LONG_BIG = {"quick": [16385, 32769], "thorough": [16385, 32769, 65537]}       # sizes for the other entry points / shapes
+
+
+def long_syms(n, shape):
+    """mixed: mostly ordinary lines, regularly a redacted / not-allowed / blank / whitespace / sensitive one (first and last
+    line ordinary); dropped: every line is redacted or blank - nothing non-blank can be left."""
+    if shape == "dropped":
+        return "".join("B" if i % 5 == 3 else "X" for i in range(n))
+    out = []
+    for i in range(n):
+        out.append("X" if i % 97 == 13 else "B" if i % 101 == 50 else "N" if i % 89 == 7 else "W" if i % 211 == 100
+                   else "S" if i % 1009 == 5 else "O")
+    return "".join(out)
+
+
+def judge_long(syms, out_lines):
+    """check_tokens with compact evidence (the first offending output line instead of the whole output)."""
+    itoks = in_tokens(syms)
+    otoks = out_tokens(out_lines)
+    last = -1
+    for j, t in enumerate(otoks):
+        if t and t[0] == "T":
+            k = int(t[1:])
+            if k <= last:
+                return [("order:tags-strictly-increasing", "tags of the output lines strictly increasing",
+                         {"output_lines": len(out_lines), "first_out_of_order_output_index": j, "its_input_line": k,
+                          "input_line_of_the_output_line_before": last, "line": str(out_lines[j])[:120]})]
+            last = k
+    bad = [j for j, t in enumerate(otoks) if t is None]
+    if bad or not is_subsequence(otoks, itoks):
+        return [("derivation:one-input-line-per-output-line", "output tokens a subsequence of the %d input tokens" % len(itoks),
+                 {"output_lines": len(out_lines), "first_unattributable_output_index": bad[0] if bad else None,
+                  "line": repr(out_lines[bad[0]])[:120] if bad else None})]
+    return []
+
+
+def check_long(case, root=None):
+    cfg, n, path, shape = case["cfg"], case["n"], case["path"], case.get("shape", "mixed")
+    syms = long_syms(n, shape)
+    lines = build_lines(syms)
+    own = None
+    if root is None and path != "cc":
+        own = root = mkscratch("c10e")
+    v = []
+    try:
+        if path == "cc":
+            out = b_cleaner(cfg).clean_content(list(lines), no_redact=cfg["no_redact"],
+                                               allowlist=None if cfg["allow"] is None else dict(cfg["allow"]))
+            if not isinstance(out, list):
+                return [("derivation:one-input-line-per-output-line", "a list of lines", {"output": repr(out)[:200]})], {"nt": True, "oc": "E:cc:notlist"}
+            v += judge_long(syms, out)
+            if out and not nonblank(out):
+                v.append(("emptiness:clean_content-returns-empty-list", [], {"output_lines": len(out), "first": out[:3]}))
+            oc = "kept" if out else "empty"
+            nt = out != lines
+        elif path == "cf":
+            p = os.path.join(root, "long.txt")
+            with open(p, "w", newline="") as fh:
+                fh.write("".join(l + "\n" for l in lines))
+            b_cleaner(cfg).clean_file(p, no_redact=cfg["no_redact"], allowlist=None if cfg["allow"] is None else dict(cfg["allow"]))
+            if os.path.exists(p):
+                with open(p, newline="") as fh:
+                    got = fh.read().split("\n")
+                os.remove(p)
+                if got and got[-1] == "":
+                    got.pop()
+                if not nonblank(got):
+                    v.append(("emptiness:clean_file-removes-file", "file removed: no non-blank line is left",
+                              {"file": "exists", "lines": len(got)}))
+                else:
+                    v += judge_long(syms, got)
+                oc, nt = "kept", got != lines
+            else:
+                oc, nt = "removed", True
+        else:
+            sp = lib.make_specs(None, one_call=True)
+            _, _, prov = lib.make_provider(sp, cfg["spec"], os.path.join(root, "in"), lines, lib_cleaner_case())
+            r = lib.attempt_write(prov, os.path.join(root, "direct", "w.txt"))
+            shutil.rmtree(os.path.join(root, "direct"), ignore_errors=True)
+            shutil.rmtree(os.path.join(root, "in"), ignore_errors=True)
+            status, exc, text = r
+            if status == "raised":
+                if text is not None:
+                    v.append(("emptiness:write-raises-and-stores-nothing", "no file when the spec is dropped", {"raised": exc, "file_chars": len(text)}))
+            elif status == "nothing":
+                v.append(("emptiness:write-raises-and-stores-nothing", "a file, or the content error", {"file": None, "raised": None}))
+            else:
+                got = text.split("\n")
+                if not nonblank(got):
+                    v.append(("emptiness:write-raises-and-stores-nothing", "ContentException and no file: no non-blank line is left",
+                              {"raised": None, "lines": len(got)}))
+                else:
+                    v += judge_long(syms, got)
+            oc, nt = status, status != "stored" or text != "\n".join(lines)
+        return v, {"nt": nt, "oc": "E:%s:%s:%s" % (path, shape, oc)}
+    finally:
+        if own:
+            shutil.rmtree(own, ignore_errors=True)
+
+
+def e_features(case):
+    f = {"path": case["path"], "allowlist": case["cfg"].get("allow") is not None, "long_content": True,
+         "shape": case.get("shape", "mixed")}
+    return f
+
+
+def long_cases(tier):
+    cs = []
+    for cfg in LONG_CC:
+        for n in LONG_SIZES[tier]:
+            cs.append({"part": "E", "path": "cc", "cfg": cfg, "n": n, "shape": "mixed"})
+    for n in [1025] + LONG_BIG[tier]:
+        cs.append({"part": "E", "path": "cc", "cfg": LONG_CC[0], "n": n, "shape": "dropped"})
+    for n in LONG_BIG[tier]:
+        cs.append({"part": "E", "path": "cf", "cfg": LONG_CC[0], "n": n, "shape": "mixed"})
+        for spec in ("ds", "plain"):
+            cs.append({"part": "E", "path": "wr", "cfg": {"spec": spec, "allow": None}, "n": n, "shape": "mixed"})
+    cs.append({"part": "E", "path": "cf", "cfg": LONG_CC[0], "n": LONG_BIG[tier][0], "shape": "dropped"})
+    cs.append({"part": "E", "path": "wr", "cfg": {"spec": "ds", "allow": None}, "n": LONG_BIG[tier][0], "shape": "dropped"})
+    return cs
+
+
+def run_e(unit, tier, res):
+    for case in unit["cases"]:
+        v, info = check_long(case)
+        res.case(nontrivial=info["nt"], outcome=info["oc"], sample=case if case["n"] == 16385 and case["path"] == "cc" else None)
+        res.stat("E_long_cases")
+        res.stat("E_long_lines_cleaned", case["n"])
+        res.maxi("E_max_lines", case["n"])
+        for clause, exp, obs in v:
+            res.violation(clause, case, exp, obs, e_features(case))
+
+
+# ================================================================================================
 # driver protocol
 # ================================================================================================
 
@@ -984,6 +1271,18 @@ def units(tier, seed):
     us.append({"part": "C", "allow": C_ALLOWS[0], "seeds": True})
     if tier == "thorough":
         us.append({"part": "C", "allow": C_ALLOWS[2], "seeds": True})
+    n = 6 if tier == "quick" else 64
+    for s in range(n):
+        us.append({"part": "D", "shard": s, "of": n})
+    small, big = [], []
+    for c in long_cases(tier):
+        (small if c["n"] <= 4097 else big).append(c)
+    for cfg in LONG_CC:
+        grp = [c for c in small if c["cfg"] == cfg]
+        if grp:
+            us.append({"part": "E", "cases": grp})
+    for c in big:
+        us.append({"part": "E", "cases": [c]})
     return us
 
 
@@ -992,6 +1291,10 @@ def unit_weight(u):
         return 10
     if u["part"] == "C":
         return 6
+    if u["part"] == "D":
+        return 8
+    if u["part"] == "E":
+        return 7 if max(c["n"] for c in u["cases"]) > 20000 else 4
     return {"wr": 5, "cf": 2}.get(u["path"], 1)
 
 
@@ -1003,12 +1306,22 @@ def run_unit(unit, tier):
         run_a(unit, tier, res)
     elif unit["part"] == "C":
         run_c(unit, tier, res)
+    elif unit["part"] == "D":
+        run_d(unit, tier, res)
+    elif unit["part"] == "E":
+        run_e(unit, tier, res)
     else:
         run_b(unit, tier, res)
     return res
 
 
 def replay(case):
+    if case.get("part") == "D":
+        vio = check_d(case)
+        return [{"clause": c, "case": case, "expected": e, "observed": o, "features": f} for c, e, o, f in vio]
+    if case.get("part") == "E":
+        v, _ = check_long(case)
+        return [{"clause": c, "case": case, "expected": e, "observed": o, "features": e_features(case)} for c, e, o in v]
     if case.get("part") == "A":
         vio = check_a(case)
         return [{"clause": c, "case": case, "expected": e, "observed": o, "features": f} for c, e, o, f in vio]
@@ -1023,7 +1336,9 @@ TECHNIQUE = ("exhaustive enumeration of all n! iteration orders of the obfuscato
              "real clean_content, order taken measured), of every set order inside the obfuscators and inside the filter "
              "registry (schedule-driven set stand-in, stateless DFS), cross-checked under real PYTHONHASHSEED values in child "
              "interpreters; bounded exhaustive enumeration of line-kind sequences through clean_content (list and string), "
-             "clean_file and the write / dehydrate path of file, command and datasource providers")
+             "clean_file and the write / dehydrate path of file, command and datasource providers; exhaustive pairs / triples of "
+             "fresh-cleaner steps executed in one forked pristine interpreter per history, compared with the step alone; "
+             "long numbered contents around powers of two through the same order oracle")
 LEVEL_TEXT = ("The scheduling freedom on the cleaning path is the iteration order of a few small hash containers: the obfuscator "
               "table (every one of its <= 720 orders is executed for every catalogued and generated competing content), sets "
               "built inside an obfuscator (every permutation of every such set of <= 5 elements) and the allow-list dict that "
@@ -1033,7 +1348,10 @@ LEVEL_TEXT = ("The scheduling freedom on the cleaning path is the iteration orde
               "every content of <= 4 (quick) / <= 5 (thorough) lines over six base line kinds (plus untagged duplicates and lines "
               "with embedded str.splitlines separators at one line less) and every listed configuration, on clean_content (list, "
               "string, same objects twice, same cleaner twice), clean_file and five provider kinds (write twice; content looked at "
-              "before dehydrate).")
+              "before dehydrate). 'In a fresh cleaner' is decided against process history too: for every ordered pair (and the "
+              "listed triples) of steps over 3 cleaner configurations x 2 contents per obfuscator kind, the later fresh cleaner "
+              "must give what it gives as the first cleaner of a pristine interpreter. Order is also decided for contents of up "
+              "to 32769 (thorough 100001) numbered lines, so no internal block size below that can reorder or merge lines.")
 LEVEL_NOTE = ("Trusted: CPython small-set slot order (re-checked per execution). Part A contents: hand catalogue + generated "
               "families (substrings, every ordered pair of 9 token kinds x glue strings, same-text, substitute words) - other "
               "contents are not covered; in the quick tier the generated adjacent pairs permute only the <= 4 obfuscators involved. "
@@ -1042,4 +1360,6 @@ LEVEL_NOTE = ("Trusted: CPython small-set slot order (re-checked per execution).
               "real-seed sweep (16 / 64 seeds) only. Container providers are not executed (no container engine on the SAFE_ENV "
               "path); they share ContentProvider.write/_clean_content with the covered kinds. Lines with embedded separators are "
               "not sent through shell_out-based loaders (filter pre-grep, commands): the loader splits them before cleaning - C11's "
-              "subject. blank = empty string as in the code (whitespace-only lines count as non-blank, DESIGN C10).")
+              "subject. blank = empty string as in the code (whitespace-only lines count as non-blank, DESIGN C10). Fresh-cleaner "
+              "histories use clean_content only and the listed step alphabet; long contents are one periodic mix of line kinds per "
+              "length (plus an all-dropped shape), not all contents of that length.")
